@@ -1,6 +1,7 @@
 SPECIFICATION Spec
 CONSTANT Tier = 0
 INVARIANT InvJar
+INVARIANT InvJarAsCoded
 INVARIANT InvAgree
 INVARIANT InvMap
 INVARIANT InvTr
